@@ -62,6 +62,11 @@ func (c *cand) honest(ti int) bool {
 
 // vouch decides the hook's answers for this candidate.
 func (e *episode) vouch(c *cand) {
+	if e.opts.RealPool { // realpool.go: the answers of client/txpool's own hook
+		e.vouchReal(c)
+		e.vouchNext = nil
+		return
+	}
 	if !e.opts.Pool {
 		e.vouchNext = nil
 		return
